@@ -95,7 +95,7 @@ ANN_SRC = {
 
 
 def write_cfg(path, tier, export):
-    lines = ["CONSTANTS", "  MaxCfg = 1", "  MaxTouch = 1", '  Tier = "%s"' % tier, "INIT MCInit", "NEXT MCNext", "VIEW MCView"]
+    lines = ["CONSTANTS", "  MaxCfg = 1", "  MaxTouch = 1", '  DynKeys = {"extra"}', "  MaxDyn = 1", '  Tier = "%s"' % tier, "INIT MCInit", "NEXT MCNext", "VIEW MCView"]
     lines += ["INVARIANT %s" % i for i in INVARIANTS]
     lines += ["PROPERTY %s" % p for p in PROPERTIES]
     if export:
@@ -168,6 +168,8 @@ class Builder:
             return c.ApplicationModeField(create_helpers=bool(f["helpers"]))
         if kind == "virtual":
             return c.VirtualField(lambda cfg: 42)
+        if kind == "vsetter":
+            return c.VirtualField(lambda cfg: 42, lambda cfg, value: None)
         if kind == "list":
             item = f["item"]
             if item["kind"] == "nofield":
@@ -189,7 +191,7 @@ class Builder:
 
     def schema(self, d):
         c = self.cinco
-        schema = c.Schema()
+        schema = c.Schema(dynamic=True) if d.get("dynamic") else c.Schema()
         for key, f in d["fields"]:
             if f["kind"] == "method":
                 c.instance_method(schema, key)(self.function(key, f["sig"]))
@@ -334,8 +336,10 @@ class World:
         self.via = []
         self.stdout = []
         self.settable = settable_keys(desc)
+        self.orig_keys = [k for k, _ in self.schema]  # the field table as built, before any call
         self.last_text = None
         self.last_types = None
+        self.refresh()
         self.resnap()
 
     def resnap(self):
@@ -343,10 +347,27 @@ class World:
         self.snap_heap = snapshot(self.cinco, self.configs)
 
     def observe(self):
+        c = self.cinco
         heap = []
         for via, cfg in zip(self.via, self.configs):
-            heap.append({"via": via, "set": sorted(k for k in self.settable if self.cinco.is_value_defined(cfg, k))})
-        return {"heap": heap, "stdout": list(self.stdout)}
+            heap.append(
+                {
+                    "via": via,
+                    "set": sorted(k for k in self.settable if c.is_value_defined(cfg, k)),
+                    "dyn": sorted({k for k, _ in c.get_fields(cfg)} - set(self.orig_keys)),
+                }
+            )
+        # the schema's field table through the public API: iteration / get_fields(schema), and
+        # the fields of a freshly built configuration
+        skeys = [k for k, _ in self.schema]
+        if [k for k, _ in c.get_fields(self.schema)] != skeys:
+            skeys = ["<iteration and get_fields disagree>"] + skeys
+        return {"heap": heap, "stdout": list(self.stdout), "skeys": skeys, "fresh": list(self.fresh)}
+
+    def refresh(self):
+        """Fields of a freshly built configuration (taken at the start and after every GenStub)."""
+        with contextlib.redirect_stdout(io.StringIO()):
+            self.fresh = [k for k, _ in self.cinco.get_fields(self.schema())]
 
     def do(self, ev):
         op = ev["op"]
@@ -363,6 +384,13 @@ class World:
             buf = io.StringIO()
             with contextlib.redirect_stdout(buf):
                 setattr(self.configs[ev["c"] - 1], ev["k"], self.settable[ev["k"]])
+            self._out(buf)
+            self.resnap()
+            return {"out": "ok"}
+        if op == "AddDyn":
+            buf = io.StringIO()
+            with contextlib.redirect_stdout(buf):
+                setattr(self.configs[ev["c"] - 1], ev["k"], 1)
             self._out(buf)
             self.resnap()
             return {"out": "ok"}
@@ -402,7 +430,8 @@ class World:
         post_schema = snapshot(self.cinco, [self.schema, self.rtype])
         post_heap = snapshot(self.cinco, self.configs)
         obs["extra"] = {"schema": post_schema == self.snap_schema, "heap": post_heap == self.snap_heap}
-        self.snap_schema, self.snap_heap = post_schema, post_heap
+        self.refresh()
+        self.snap_schema, self.snap_heap = snapshot(self.cinco, [self.schema, self.rtype]), post_heap
         return obs
 
 
@@ -462,7 +491,7 @@ def classify(spec_ev, obs_ev, spec_to=None, obs_state=None):
     if ex is not None and not (ex["schema"] and ex["heap"]):
         return "gen:side-effect:%s" % ("schema" if not ex["schema"] else "heap")
     if spec_to is not None and obs_state is not None:
-        for k in ("stdout", "heap"):
+        for k in ("stdout", "heap", "skeys", "fresh"):
             if k in spec_to and spec_to[k] != obs_state.get(k):
                 return "%s:state:%s" % (spec_ev.get("op", "?"), k)
     return "%s:differs" % spec_ev.get("op", "?")
@@ -475,8 +504,12 @@ def canon_edge(e):
     return {"from": canon_state(e["from"]), "ev": ev, "to": canon_state(e["to"])}
 
 
+def canon_heap(h):
+    return [{"via": c["via"], "set": sorted(c["set"]), "dyn": sorted(c["dyn"])} for c in h]
+
+
 def canon_state(s):
-    return {"sid": s["sid"], "heap": [{"via": c["via"], "set": sorted(c["set"])} for c in s["heap"]], "stdout": list(s["stdout"])}
+    return {"sid": s["sid"], "heap": canon_heap(s["heap"]), "stdout": list(s["stdout"]), "skeys": list(s["skeys"]), "fresh": list(s["fresh"])}
 
 
 def canon_spec_types(t):
@@ -492,6 +525,7 @@ RESERVED = set(keyword.kwlist) | set(getattr(keyword, "softkwlist", [])) | {"sel
 ALL_ANN = ["noann", "noann", "noann", "int", "int", "listint", "optstr", "class", "fwd", "none", "pep585", "ctype", "callable", "literal", "config"]
 RARE_ANN = ["union604", "newtype", "typevar"]
 SCALARS = sorted(SIMPLE)
+DYN_KEYS = ["extra", "dyn_b", "wq7"]  # rnd_name() cannot produce these
 
 
 def rnd_name(rng, taken, forbidden=()):
@@ -592,7 +626,7 @@ def rnd_schema(rng, depth, tn, rare, width=9, forbidden=()):
         elif r < 0.78 and depth < 3:
             f = rnd_ctype(rng, depth, tn)
         elif r < 0.86:
-            f = {"kind": "virtual"}
+            f = {"kind": rng.choice(["virtual", "virtual", "vsetter"])}
         else:
             f = {"kind": "method", "sig": rnd_sig(rng, rare)}
         fields.append([key, f])
@@ -608,14 +642,25 @@ def driver(cinco, seed, n_traces):
     for _ in range(n_traces):
         rare = 0.04 if rng.random() < 0.15 else 0.0
         desc = rnd_schema(rng, 0, [0], rare, forbidden=forbidden)
+        desc["dynamic"] = rng.random() < 0.35
         w = World(cinco, desc)
         events = []
         touched = []
+        added = []
         for _ in range(rng.randint(2, 9)):
             r = rng.random()
             if r < 0.25 and len(w.configs) < 4:
                 ev = {"op": "NewConfig", "via": rng.choice(["schema", "ctype"])}
                 touched.append(set())
+                added.append(set())
+            elif r < 0.40 and desc["dynamic"] and w.configs:
+                c = rng.randrange(len(w.configs))
+                free = sorted(set(DYN_KEYS) - added[c])
+                if not free:
+                    continue
+                k = rng.choice(free)
+                added[c].add(k)
+                ev = {"op": "AddDyn", "c": c + 1, "k": k}
             elif r < 0.45 and w.configs and w.settable:
                 c = rng.randrange(len(w.configs))
                 free = sorted(set(w.settable) - touched[c])
@@ -625,7 +670,7 @@ def driver(cinco, seed, n_traces):
                 touched[c].add(k)
                 ev = {"op": "Touch", "c": c + 1, "k": k}
             else:
-                target = rng.choice(["schema", "ctype", "config"] if w.configs else ["schema", "ctype"])
+                target = rng.choice(["schema", "ctype", "config", "config"] if w.configs else ["schema", "ctype"])
                 ev = {"op": "GenStub", "target": target, "c": rng.randrange(len(w.configs)) + 1 if target == "config" else 0}
             rec = dict(ev)
             rec.update(w.do(ev))
@@ -665,6 +710,8 @@ def family_stats(family):
 
     for s in family:
         walk(s)
+        if s.get("dynamic"):
+            flags.add("dynamic")
     return kinds, pkinds, anns, flags
 
 
@@ -693,8 +740,8 @@ def run(tier, seed):
         )
     family = exp.printed["FAM"][0]
     kinds, pkinds, anns, flags = family_stats(family)
-    need = set(SIMPLE) | {"appmode", "list", "dict", "schema", "ctype", "virtual", "method", "list-of-schema", "list-of-ctype", "list-of-nofield"}
-    if not (need <= kinds and pkinds == set(PARAM_KINDS.values()) and {"default", "ret", "noret"} <= flags and {"noann", "int", "listint", "class"} <= anns):
+    need = set(SIMPLE) | {"appmode", "list", "dict", "schema", "ctype", "virtual", "vsetter", "method", "list-of-schema", "list-of-ctype", "list-of-nofield"}
+    if not (need <= kinds and pkinds == set(PARAM_KINDS.values()) and {"default", "ret", "noret", "dynamic"} <= flags and {"noann", "int", "listint", "class"} <= anns):
         raise tlc.TLCError("vacuous family: kinds %s, parameter kinds %s, flags %s" % (sorted(need - kinds), sorted(pkinds), sorted(flags)))
     types = {t["sid"]: canon_spec_types(t["types"]) for t in exp.printed.get("TYPES", [])}
     # 2b. spec -> code: every (state, operation) case of the graph on real objects
@@ -702,6 +749,15 @@ def run(tier, seed):
     g = replay.Graph([canon_state(s) for s in exp.printed.get("INIT", [])], edges)
     adapter = Adapter(cinco, family, types)
     stats, mism = replay.run_graph(adapter, g, seed=seed, stop_after=10**9)
+    dyn_gen = sum(1 for cf, ck, alts in g.cases() if alts[0][0]["op"] == "GenStub" and alts[0][0]["target"] == "config" and any(c["dyn"] for c in g.state[cf]["heap"]))
+    if not dyn_gen or not stats["by_op"].get("AddDyn"):
+        raise tlc.TLCError("vacuous: no GenStub(config) case after AddDyn in the graph")
+    gen_by = {}
+    for cf, ck, alts in g.cases():
+        if alts[0][0]["op"] == "GenStub":
+            gen_by.setdefault(alts[0][0]["target"], set()).add(g.state[cf]["sid"])
+    if any(len(gen_by.get(t, ())) != len(family) for t in ("schema", "config", "ctype")):
+        raise tlc.TLCError("vacuous: GenStub cases per target %s for %d schemas" % ({t: len(v) for t, v in gen_by.items()}, len(family)))
     for m in mism:
         spec_ev, spec_to = m.expected[0]["ev"], m.expected[0]["to"]
         sig = classify(spec_ev, m.observed["ev"], spec_to, m.observed["state"])
@@ -726,7 +782,7 @@ def run(tier, seed):
             mev = v.model["ev"]
             if "res" in mev:
                 mev = dict(mev, res=canon_res(mev["res"]))
-            sig = classify(mev, e, {"heap": [{"via": c["via"], "set": sorted(c["set"])} for c in v.model["heap"]], "stdout": v.model["stdout"]}, e)
+            sig = classify(mev, e, {"heap": canon_heap(v.model["heap"]), "stdout": v.model["stdout"], "skeys": orig_keys(tr["init"]["schema"]), "fresh": orig_keys(tr["init"]["schema"])}, e)
         elif v.bad_inv:
             sig = "trace:" + ",".join(v.bad_inv)
         else:
@@ -757,6 +813,8 @@ def run(tier, seed):
         "spec_to_code_edges": g.n_edges,
         "spec_to_code_steps": stats["steps"],
         "spec_to_code_by_op": stats["by_op"],
+        "spec_to_code_genstub_on_config_with_runtime_fields": dyn_gen,
+        "code_to_spec_adddyn_events": sum(1 for t in traces for e in t["events"] if e["op"] == "AddDyn"),
         "spec_to_code_diverted_prefix": stats.get("diverted_prefix", 0),
         "spec_to_code_mismatches": len(mism),
         "annotation_drift_schemas": len(adapter.drift),
@@ -768,7 +826,7 @@ def run(tier, seed):
         "evaluations": stats["cases"] + n_events,
         "distinct_nontrivial": len(distinct) + stats["cases"],
         "rule": "spec->code: one case per distinct (schema of the family, heap state, operation+arguments) of the TLC graph "
-        "(GenStub for a Schema / a Config / a ConfigType, NewConfig, Touch); code->spec: seeded random schemas (<= 9 fields per level, "
+        "(GenStub for a Schema / a Config / a ConfigType, NewConfig, Touch, AddDyn on dynamic schemas); code->spec: seeded random schemas (<= 9 fields per level, "
         "depth <= 3, every field class, methods with <= 12 parameters of every kind) and call sequences; "
         "distinct = distinct (schema descriptor, operation, target, heap) among driver events + graph cases; trivial = none excluded",
         "samples": [{"spec_to_code_case": sample_case}, {"code_to_spec_trace": traces[0]}],
@@ -779,9 +837,19 @@ def run(tier, seed):
         "annotation *strings* (typing.List[int], module-qualified class names, dropped annotations of *args/**kwargs, return annotations) are mirrored by the specification but are outside C20: a difference is reported as MODEL-DRIFT in notes, not as a violation",
         "'no side effect' is observed as equality of deep structural snapshots (attribute values and object identities of the schema graph, the config type and every configuration made so far) taken before and after, plus captured sys.stdout; stderr, warnings and the file system are not observed",
         "parameter order is compared for positional parameters; attributes, constructor parameters, keyword-only parameters and methods are compared as sets",
-        "configurations of dynamic schemas (fields added at run time) are not covered",
+        "for a configuration of a dynamic schema that gained fields at run time the stub must declare the schema's fields; whether it also declares the run-time fields is left open (the specification's GenStub is nondeterministic there), but the schema's field table (iteration, get_fields, a freshly built configuration) must be unchanged",
     ]
     return out
+
+
+def orig_keys(desc):
+    """Keys the real schema was built with (ApplicationModeField helpers included)."""
+    keys = []
+    for k, f in desc["fields"]:
+        keys.append(k)
+        if f["kind"] == "appmode" and f["helpers"]:
+            keys += ["is_development_mode", "is_production_mode"]
+    return keys
 
 
 def _short(desc):
